@@ -210,6 +210,35 @@ impl Store {
         Ok(())
     }
 
+    /// Checks, without writing, that the commit of `row` — the row itself and
+    /// the version-log entry appended with it — would not be refused by the
+    /// row store for its content (field validation, the complexity budget,
+    /// the object size limit).
+    ///
+    /// A transaction has no log to unwind: a refusal found while its rows are
+    /// being written leaves the rows written before it. The row store's
+    /// content rules are therefore applied to every staged row before the
+    /// first one is written.
+    pub(crate) async fn check_row<R: Row>(
+        &self,
+        cx: &WriteContext,
+        id: crate::id::ElementId,
+        version: u64,
+        op: &str,
+        row: &R,
+    ) -> Result<(), KipError> {
+        let collection = self.elements(R::KIND);
+        let fields = super::full_row_fields(collection.schema(), row)?;
+        collection
+            .check_update(row.id(), fields)
+            .await
+            .map_err(db_error)?;
+        let entry = self.version_entry(cx, id, version, op, row)?;
+        self.element_versions()
+            .check_add_from(&entry)
+            .map_err(db_error)
+    }
+
     /// Checks an `EXPECT VERSION` precondition (Spec §81).
     ///
     /// A mismatch is a [`KipErrorCode::VersionConflict`](anda_kip::KipErrorCode::VersionConflict),
